@@ -91,6 +91,7 @@ from gemseo.utils.data_conversion import split_array_to_dict_of_arrays
 from gemseo.utils.hdf5 import get_hdf5_group
 from gemseo.utils.repr_html import REPR_HTML_WRAPPER
 from gemseo.utils.string_tools import _format_value_in_pretty_table_16
+from gemseo.utils.string_tools import _format_value_in_pretty_table_without_loss
 from gemseo.utils.string_tools import convert_strings_to_iterable
 from gemseo.utils.string_tools import pretty_str
 from gemseo.utils.string_tools import repr_variable
@@ -2032,6 +2033,9 @@ class DesignSpace:
         """
         output_file = Path(output_file)
         table = self.get_pretty_table(fields=fields)
+        # The file is read back by from_csv:
+        # the bounds and the current values must not lose their last digits.
+        table.custom_format = _format_value_in_pretty_table_without_loss
         table.border = False
         for option, val in table_options.items():
             table.__setattr__(option, val)
